@@ -75,10 +75,11 @@ def match_finding(findings, pid, w):
     for f in findings:
         if f.get("property") != pid or f.get("status", "open") != "open":
             continue
-        pat = f["subject"]
-        if not (w["subject"] == pat or (pat.endswith("*") and w["subject"].startswith(pat[:-1]))):
+        pats = f["subject"] if isinstance(f["subject"], list) else [f["subject"]]
+        if not any(w["subject"] == pat or (pat.endswith("*") and w["subject"].startswith(pat[:-1])) for pat in pats):
             continue
-        if w["kind"] != f["kind"]:
+        kinds = f["kind"] if isinstance(f["kind"], list) else [f["kind"]]
+        if w["kind"] not in kinds:
             continue
         ok = True
         for k, v in (f.get("requires") or {}).items():
